@@ -264,6 +264,9 @@ class Tracer:
 
         wrap_mod('_simulate_price_change_effect_multiple_candles', mm_enter, mm_leave)
 
+        # fast simulator: one event per chunk, carrying the loop index (a function of positions only, never of candle content)
+        wrap_mod('_simulate_new_candles', lambda a, kw: tr.emit('chunk', index=int(a[1]), step=int(a[2])), lambda a, kw: None)
+
         # ---- trade log ----
         from jesse.store.state_completed_trades import ClosedTrades
         orig_close = ClosedTrades.close_trade
